@@ -50,7 +50,7 @@ impl Property for C15 {
         "C15"
     }
     fn rule(&self) -> String {
-        "Generated: own-token streams of 0..14 tokens (number words of every class, speller phrases, ordinals, conjunction / separator / linking / ordinary words, punctuation and whitespace tokens), optionally repeated up to 40 times, with per-token 'separated from predecessor' hints (carried either as a flag on the token or as a pause recorded on the preceding token and read through the `previous` argument of nt_separated) and 'not a number part' hints placed only on tokens the scanner looks at (never on whitespace-only or bare '-' tokens) and forced, in half of the cases, onto a token inside what would otherwise be one number (incl. right after a conjunction or separator word); any threshold. Oracle: (1) collect(find_numbers_iter) == find_numbers, and two more next() calls after None return None; (2) laziness with a counting adaptor on the input: nothing is consumed before the first next(); when the k-th occurrence is yielded, the number of tokens consumed is <= the end of the (k+2)-th occurrence of the batch result when that exists; (3) for every hinted token i with predecessor j (previous non-skipped token): no occurrence contains both; and the stream with that hint cleared and a ',' token inserted before i yields the same occurrences after index mapping; (4) no occurrence contains a token flagged 'not a number part'. Non-trivial = distinct streams where a hint falls inside what the unhinted stream reads as one number, or with >= 4 occurrences (needed for the look-ahead bound).".into()
+        "Generated: own-token streams of 0..14 tokens (number words of every class, speller phrases, ordinals, conjunction / separator / linking / ordinary words, punctuation and whitespace tokens), optionally repeated up to 40 times, with per-token 'separated from predecessor' hints (carried either as a flag on the token or as a pause recorded on the preceding token and read through the `previous` argument of nt_separated) and 'not a number part' hints placed only on tokens the scanner looks at (never on whitespace-only or bare '-' tokens) and forced, in half of the cases, onto a token inside what would otherwise be one number (incl. right after a conjunction or separator word); any threshold. Oracle: (1) collect(find_numbers_iter) == find_numbers, two more next() calls after None return None, and fold / for_each / count / last / nth+rest / size_hint agree with it; hyphenated words are sometimes given as separate tokens with a bare '-' between them; (2) laziness with a counting adaptor on the input: nothing is consumed before the first next(); when the k-th occurrence is yielded, the number of tokens consumed is <= the end of the (k+2)-th occurrence of the batch result when that exists; (3) for every hinted token i with predecessor j (previous non-skipped token): no occurrence contains both; and the stream with that hint cleared and a ',' token inserted before i yields the same occurrences after index mapping; (4) no occurrence contains a token flagged 'not a number part'. Non-trivial = distinct streams where a hint falls inside what the unhinted stream reads as one number, or with >= 4 occurrences (needed for the look-ahead bound).".into()
     }
     fn assumptions(&self) -> Vec<String> {
         vec!["hints are generated on tokens the scanner examines only: whitespace-only and bare '-' tokens are dropped before hints are read, and no real annotator flags them".into()]
@@ -60,7 +60,22 @@ impl Property for C15 {
             .prop_map(|((lang, sent), hints, th_bits, repeat, force, pos, via_prev)| {
                 // one token per item; whitespace joins become their own tokens (like the tokenizer's output)
                 let mut tokens: Vec<(String, bool, bool)> = vec![];
-                for it in &sent.items {
+                for (n_it, it) in sent.items.iter().enumerate() {
+                    // a caller-built stream may carry the hyphen of a compound as its own token
+                    if it.text.contains('-') && it.text.len() > 1 && (force as usize + n_it) % 3 == 0 {
+                        for (j, part) in it.text.split('-').enumerate() {
+                            if j > 0 {
+                                tokens.push(("-".to_string(), false, false));
+                            }
+                            if !part.is_empty() {
+                                tokens.push((part.to_string(), false, false));
+                            }
+                        }
+                        if !it.join.is_empty() {
+                            tokens.push((it.join.clone(), false, false));
+                        }
+                        continue;
+                    }
                     tokens.push((it.text.clone(), false, false));
                     if !it.join.is_empty() {
                         tokens.push((it.join.clone(), false, false));
@@ -124,6 +139,42 @@ impl Property for C15 {
             return Err(format!("[{}] the lazy iterator yields again after it ended (stream {:?})", c.lang, texts()));
         }
         let lazy = occs(lazy);
+        // the other ways of driving an iterator must give the same occurrences: internal iteration
+        // (fold / for_each / count / last), nth, by_ref + resume; size_hint must not lie
+        {
+            let folded = occs(find_numbers_iter(stream.iter(), lg, th).fold(vec![], |mut v, o| {
+                v.push(o);
+                v
+            }));
+            if folded != batch {
+                return Err(format!("[{}] th={}: fold over the lazy iterator differs from batch\n stream {:?}\n batch {}\n fold  {}", c.lang, fmt_th(c.th_bits), texts(), show(&batch), show(&folded)));
+            }
+            let cnt = find_numbers_iter(stream.iter(), lg, th).count();
+            let last = find_numbers_iter(stream.iter(), lg, th).last().map(|o| o.text);
+            if cnt != batch.len() || last != batch.last().map(|o| o.text.clone()) {
+                return Err(format!("[{}] th={}: count()/last() on the lazy iterator give {} / {:?}, batch has {} occurrences ending with {:?}\n stream {:?}", c.lang, fmt_th(c.th_bits), cnt, last, batch.len(), batch.last().map(|o| o.text.clone()), texts()));
+            }
+            let mut each = vec![];
+            find_numbers_iter(stream.iter(), lg, th).for_each(|o| each.push(o));
+            if occs(each) != batch {
+                return Err(format!("[{}] for_each over the lazy iterator differs from batch (stream {:?})", c.lang, texts()));
+            }
+            if !batch.is_empty() {
+                let k = batch.len() / 2;
+                let mut it = find_numbers_iter(stream.iter(), lg, th);
+                let (lo, hi) = it.size_hint();
+                if lo > batch.len() || hi.map_or(false, |h| h < batch.len()) {
+                    return Err(format!("[{}] size_hint {:?} excludes the actual number of occurrences {}", c.lang, (lo, hi), batch.len()));
+                }
+                let nth = it.nth(k).map(|o| o.text);
+                let rest: Vec<String> = it.by_ref().map(|o| o.text).collect();
+                let want_rest: Vec<String> = batch[k + 1..].iter().map(|o| o.text.clone()).collect();
+                if nth != Some(batch[k].text.clone()) || rest != want_rest {
+                    return Err(format!("[{}] nth({}) then the rest give {:?} + {:?}, batch {}\n stream {:?}", c.lang, k, nth, rest, show(&batch), texts()));
+                }
+            }
+            obs.label("iterator-protocol-checked");
+        }
         if lazy != batch {
             return Err(format!("[{}] th={}: lazy and batch search differ\n stream {:?}\n batch {}\n lazy  {}", c.lang, fmt_th(c.th_bits), texts(), show(&batch), show(&lazy)));
         }
